@@ -24,6 +24,12 @@ REG = {
          "Float32 rounding bounded by tolVel/tolAcc (Sb/Corr/Traj.lean), which include a term relative to the coordinate magnitude (power-basis cancellation), i.e. are at least as permissive as the property's bound."),
  "C08": ("Lean 4 theorems for every weakly monotone ms->s conversion (hence for the C float rounding): any history of position/velocity/acceleration/duration queries at non-NaN times keeps the cursor on the chain rewind,next,next,... up to coherent derivative caches (runHistory_inv); the answer at an instant that is not exactly a boundary equals a fresh player's answer (trajectory_answers_history_free); with positive durations the segment used at a boundary is the fresh one or its successor (trajectory_boundary_adjoining). Abstract cursor theory (cseek_lands, landing_history_free, landing_adjoining) shared with the yaw player. Correspondence: the implementation is compared with itself bit-for-bit (fresh player vs player after history) and with the model (segment index exactly) on all orderings of small probe sets and long random walks.",
          "Hypothesis NoWrap (ms counters below 2^32) and MonoSec (monotone conversion; proven for exact division, assumed for IEEE float division by 1000.0f). The yaw-player instance of the abstract theorems is exercised by the correspondence run; its Lean instantiation is in progress."),
+ "C10": ("Lean 4 theorems (exact arithmetic): header fields are exactly those stored; yaw_eq_spec: for every block with setpoint durations >= 1 ms (total < 2^32 ms, accumulated yaw within int32) and every non-NaN time, yaw = offset + completed changes + elapsed fraction of the change in progress (degrees) and rate = change/duration; initial offset at/before 0; final yaw held with zero rate after the end. Correspondence: generated blocks incl. accumulated yaw far beyond +-3276.7 deg and stray trailing bytes, fresh player per query.",
+         "Float32 rounding bounded by tolYaw (Sb/Corr/YawOps.lean). int32 accumulation overflow (needs > 65535 setpoints) is a hypothesis of the theorem and a fault in the model."),
+ "C02": ("Lean 4 theorems about the literal model of executor/player/loop stack/transition: opcode numbering and timing constants are the format's (side-conditions on the translator output), loop depth never exceeds 4 and a fifth LOOP_BEGIN is ignored, loop counter semantics (0 forever, 1 leaves, n counts down), 7-bit pyro mask, fade interpolation exact at both ends and never above 255, state held after the end. PARTIAL: the refinement 'fresh seek = sequential timeline semantics' and 'no command starts between t and next' are decided by the correspondence run only: grammar-based productive programs over all 22 opcodes x fresh player per timestamp at every command start, start+-1, inside fades, far beyond, 2^24-1.",
+         "No signal source (C API offers none). Colour inside a fade accepted within <1 unit (+2^-10 float slack) of exact interpolation, as the property states. The timeline-refinement theorem is not proven; the model itself is the executable semantics the implementation is compared with."),
+ "C09": ("Lean 4 theorems: a backward seek starts over from the rewound executor, a fresh player is exactly a rewound one, rewind re-establishes pc/loops/colour/pyro/transition/ended and arms the clock reset; plus the C02 invariants. PARTIAL: that a forward seek is a function of (program, t) up to the zero-duration latitude is decided by the correspondence run: one player driven through all orderings of probe sets with immediate repeats and random walks with back-jumps; each answer compared with a fresh player's (implementation vs itself) and with the model; differences accepted only where the fresh player still has zero-duration commands pending at t.",
+         "See C02."),
 }
 
 checks = []
